@@ -40,7 +40,10 @@ RULE = ("objects: BPSK, QPSK(+setPhaseOffset), PSK(2^1..2^10) x 8 constructed of
         "1,2,50,1000 (thorough + 3,7,12000); per (object, SNR): range, monotonicity, limit, "
         "BER<=SER<=K*BER, PER and spectral-efficiency composition, SER against the value rebuilt from "
         "the emitted symbols (dmin, energy, levels per axis), PSK sandwich against Craig's integral; "
-        "qfunc and dB2Linear on their own grids. A case is non-trivial when the SER at the grid point "
+        "qfunc and dB2Linear on their own grids; per object call sequences on ONE object with ONE SNR array "
+        "object rewritten in place (6 rewrites x 2 function orders, scalars in between, PSK interleaved "
+        "with 8 setPhaseOffset calls) against a fresh object on a fresh copy, arguments bit-identical after "
+        "every call, 12 other dtypes/layouts of the SNR array and 0-d. A case is non-trivial when the SER at the grid point "
         "lies in (1e-12, 0.999); distinct = distinct (kind, M, table digest)")
 
 C_REL = 1e3                 # c of numerics: |lhs-rhs| <= C_REL * eps * kappa * scale + PROB_FLOOR
@@ -355,6 +358,189 @@ def check_scalars(chk, lab, m, geo, snr_db, Ls, spec, ref):
                              observed=g, expected=float(want))
 
 
+# ----------------------------------------------------------------------
+# call sequences on ONE object / ONE argument object (no state may survive a call)
+# ----------------------------------------------------------------------
+RATE_FNS = ("SER", "BER", "PER", "SE", "SE0")
+FN_ORDERS = (("SER", "BER", "PER", "SE", "SE0"), ("SE0", "SE", "PER", "BER", "SER"),
+             ("BER", "SER", "SE", "PER", "SE0"), ("PER", "SE0", "SER", "SE", "BER"),
+             ("SE", "PER", "BER", "SE0", "SER"))
+
+
+def call_rate(m, fn, snr, L):
+    if fn == "SER":
+        return m.calcTheoreticalSER(snr)
+    if fn == "BER":
+        return m.calcTheoreticalBER(snr)
+    if fn == "PER":
+        return m.calcTheoreticalPER(snr, L)
+    if fn == "SE":
+        return m.calcTheoreticalSpectralEfficiency(snr, L)
+    return m.calcTheoreticalSpectralEfficiency(snr)
+
+
+def same_bits(a, b):
+    a, b = np.asarray(a), np.asarray(b)
+    return a.shape == b.shape and a.dtype == b.dtype and a.tobytes() == b.tobytes()
+
+
+def check_call_sequences(chk, lab, kind, M, hist, spec, tier):
+    """(a) one object, one SNR array object whose content is rewritten in place between
+    calls, every function in several orders; (b) arguments bit-identical after every call;
+    (d) for PSK interleaved with setPhaseOffset.  Reference: a FRESH object of the same
+    history evaluating a FRESH copy of the content (bit-identical results expected: same
+    code, same numbers, no state)."""
+    base = lab.split("_")[0]
+    m = build(kind, M, hist)
+    L = 50
+    start = np.array([-30.0 + 5.0 * i for i in range(16)])          # -30 .. 45 dB
+    buf = start.copy()
+    held = []          # (description, returned object, snapshot) - earlier results must not change later
+    cur_hist = [list(ev) for ev in hist]
+
+    def one_round(step, order):
+        snap = buf.copy()
+        fresh = build(kind, M, cur_hist)
+        for fn in order:
+            got = call_rate(m, fn, buf, L)
+            want = call_rate(fresh, fn, snap.copy(), L)
+            chk.count("eval_sequence_calls")
+            case = dict(spec, what="call_sequence", step=step, order=list(order), fn=fn,
+                        snr_db_content=snap.copy(), history_now=[list(ev) for ev in cur_hist])
+            if not same_bits(buf, snap):
+                chk.fail(("argument_modified", base), case, observed=buf.copy(), expected=snap)
+                buf[:] = snap
+            if not same_bits(got, want):
+                i = bad_index(np.asarray(got, dtype=float).ravel() != np.asarray(want, dtype=float).ravel()) \
+                    if np.shape(got) == np.shape(want) else None
+                chk.fail(("call_sequence", base, "result_differs_from_fresh_object_on_fresh_copy"),
+                         dict(case, position=i),
+                         observed=np.asarray(got).ravel()[:4] if i is None else float(np.asarray(got).ravel()[i]),
+                         expected=np.asarray(want).ravel()[:4] if i is None else float(np.asarray(want).ravel()[i]),
+                         msg="same object, same array object, content rewritten in place before this round")
+            if isinstance(got, np.ndarray):
+                held.append(("%s@%s" % (fn, step), got, got.copy()))
+
+    rewrites = [("initial", lambda: None),
+                ("buf += 20", lambda: np.add(buf, 20.0, out=buf)),
+                ("buf -= 35", lambda: np.subtract(buf, 35.0, out=buf)),
+                ("buf[:] = buf[::-1]", lambda: buf.__setitem__(slice(None), buf[::-1].copy())),
+                ("buf *= 0.5", lambda: np.multiply(buf, 0.5, out=buf)),
+                ("buf[3] = 12.25", lambda: buf.__setitem__(3, 12.25))]
+    for k, (name, rewrite) in enumerate(rewrites):
+        rewrite()
+        one_round(name, FN_ORDERS[k % len(FN_ORDERS)])
+        # the same content again, other order: idempotence
+        one_round(name + " (repeat)", FN_ORDERS[(k + 2) % len(FN_ORDERS)])
+    # scalar in between, then the buffer again
+    for fn in RATE_FNS:
+        g, w = call_rate(m, fn, 15.0, L), call_rate(build(kind, M, cur_hist), fn, 15.0, L)
+        chk.count("eval_sequence_calls")
+        if not same_bits(g, w):
+            chk.fail(("call_sequence", base, "result_differs_from_fresh_object_on_fresh_copy"),
+                     dict(spec, what="call_sequence", step="scalar after arrays", fn=fn), observed=g, expected=w)
+    one_round("after scalars", FN_ORDERS[1])
+    # (d) interleaved with setPhaseOffset
+    if kind in ("psk", "qpsk"):
+        for j, phi in enumerate(offsets(M)):
+            m.setPhaseOffset(phi)
+            cur_hist.append(["set", phi])
+            if j % 2:
+                np.add(buf, 1.5, out=buf)
+            one_round("after setPhaseOffset #%d" % j, FN_ORDERS[j % len(FN_ORDERS)])
+            # ... and independent of the history: a PSK constructed directly with this offset
+            direct = build("psk", M, [["new", phi]])
+            for fn in RATE_FNS:
+                g, w = call_rate(m, fn, buf, L), call_rate(direct, fn, buf.copy(), L)
+                chk.count("eval_sequence_calls")
+                if not same_bits(g, w):
+                    i = bad_index(np.asarray(g).ravel() != np.asarray(w).ravel()) if np.shape(g) == np.shape(w) else None
+                    chk.fail(("call_sequence", base, "result_depends_on_setPhaseOffset_history"),
+                             dict(spec, what="call_sequence", step="setPhaseOffset #%d" % j, fn=fn, position=i,
+                                  history_now=[list(ev) for ev in cur_hist]),
+                             observed=np.asarray(g).ravel()[:4] if i is None else float(np.asarray(g).ravel()[i]),
+                             expected=np.asarray(w).ravel()[:4] if i is None else float(np.asarray(w).ravel()[i]))
+            sym_now = np.asarray(m.symbols)
+            if not same_bits(sym_now, np.asarray(build(kind, M, cur_hist).symbols)):
+                chk.fail(("call_sequence", base, "symbols_differ_from_fresh_object"),
+                         dict(spec, what="call_sequence", step="setPhaseOffset #%d" % j,
+                              history_now=[list(ev) for ev in cur_hist]))
+    for desc, obj, snapv in held:
+        if not same_bits(obj, snapv):
+            chk.fail(("returned_array_changed_by_later_call", base), dict(spec, what="call_sequence", result=desc),
+                     observed=obj[:4], expected=snapv[:4])
+            break
+    chk.outcome("sequence_rounds", (base, len(held) > 0))
+
+
+def snr_presentations(values):
+    """(name, object, logical float64 content) for one 1-D float64 vector of integer-valued dB"""
+    v = np.asarray(values, dtype=float)
+    n = v.size
+    out = [("readonly", None, v)]
+    ro = v.copy()
+    ro.flags.writeable = False
+    out[0] = ("readonly", ro, v)
+    big = np.zeros(3 * n)
+    big[::3] = v
+    out.append(("strided", big[::3], v))
+    out.append(("negative_stride", v[::-1].copy()[::-1], v))
+    out.append(("2d_T", v.reshape(n // 2, 2).T, v.reshape(n // 2, 2).T.copy()))
+    out.append(("2d_F", np.asfortranarray(v.reshape(2, n // 2)), v.reshape(2, n // 2)))
+    out.append(("3d_swap", v.reshape(n // 4, 2, 2).swapaxes(0, 1), v.reshape(n // 4, 2, 2).swapaxes(0, 1).copy()))
+    for dt in ("int64", "int32", "int16", "int8"):
+        out.append((dt, v.astype(dt), v))
+    out.append(("float32", v.astype(np.float32), v))
+    out.append(("float32_2d_T", v.astype(np.float32).reshape(n // 2, 2).T, v.reshape(n // 2, 2).T.copy()))
+    return out
+
+
+def check_snr_presentations(chk, lab, m, spec, kappa_of):
+    """(c) other dtypes / layouts of the SNR argument against the float64 C-contiguous result"""
+    base = lab.split("_")[0]
+    L = 50
+    vals = np.array([-30.0 + 5.0 * i for i in range(16)])
+    ref = {fn: np.asarray(call_rate(m, fn, vals.copy(), L), dtype=float) for fn in RATE_FNS}
+    for name, obj, logical in snr_presentations(vals):
+        snap = obj.copy()
+        chk.outcome("snr_presentation", name)
+        for fn in RATE_FNS:
+            case = dict(spec, what="snr_presentation", presentation=name, fn=fn)
+            got = call_rate(m, fn, obj, L)
+            chk.count("eval_presentation_calls")
+            if not same_bits(obj, snap):
+                chk.fail(("argument_modified", base), case, observed=obj, expected=snap)
+                return
+            want = np.asarray(call_rate(m, fn, np.ascontiguousarray(logical, dtype=float), L), dtype=float)
+            cls = "float32" if name.startswith("float32") else ("int_dtype" if name.startswith("int") else "layout")
+            if np.shape(got) != np.shape(obj):
+                chk.fail(("snr_presentation", base, cls, "shape"), case, observed=np.shape(got), expected=np.shape(obj))
+                continue
+            g = np.asarray(got, dtype=float)
+            if cls == "float32":
+                # the library computes pow(10, x/10) in single precision for single-precision input
+                kap = kappa_of(np.asarray(logical, dtype=float))
+                amp = float(L) if fn in ("PER", "SE") else 1.0
+                scale = np.maximum(np.abs(want), np.abs(g)) if fn in ("SER", "BER", "PER") else math.log2(spec["M"])
+                bad = ~(np.abs(g - want) <= 64 * 2.0 ** -23 * kap * scale * amp + 8 * 2.0 ** -23 * amp)
+            else:
+                bad = ~((g == want) | (np.isnan(g) & np.isnan(want)))
+            i = bad_index(bad)
+            if i is not None:
+                chk.fail(("snr_presentation", base, cls, "differs_from_float64_result"), dict(case, position=i),
+                         observed=float(g.ravel()[i]), expected=float(want.ravel()[i]))
+    # 0-d arrays against scalars
+    for d in (-30.0, 0.0, 12.5, 45.0):
+        for fn in RATE_FNS:
+            z = np.array(d)
+            g, w = call_rate(m, fn, z, L), call_rate(m, fn, d, L)
+            chk.count("eval_presentation_calls")
+            if np.ndim(g) != 0 or float(g) != float(w) or float(z) != d:
+                chk.fail(("snr_presentation", base, "0d", "differs_from_scalar_result"),
+                         dict(spec, what="snr_presentation", presentation="0d", fn=fn, snr_db=d), observed=g, expected=w)
+    ref.clear()
+
+
 def check_object(chk, spec, tier):
     kind, M, hist = spec["kind"], spec["M"], spec["history"]
     lab = kind_label(kind, hist)
@@ -391,6 +577,13 @@ def check_object(chk, spec, tier):
             sub = dict(ser=ref["ser"][sel], ber=ref["ber"][sel], se0=ref["se0"][sel], kappa=ref["kappa"][sel],
                        per={L: v[sel] for L, v in ref["per"].items()}, se={L: v[sel] for L, v in ref["se"].items()})
             check_scalars(chk, lab, m, geo, grid[sel], Ls, spec, sub)
+        with chk.guard(("call_sequence", base), dict(spec, what="call_sequence")):
+            check_call_sequences(chk, lab, kind, M, hist, spec, tier)
+        with chk.guard(("snr_presentation", base), dict(spec, what="snr_presentation")):
+            dm = geo["dmin"]
+            check_snr_presentations(
+                chk, lab, m, spec,
+                lambda d: np.maximum(1.0, (dm * np.sqrt(lin(d) / 2.0)) ** 2) * max(1.0, 1.0 / dm))
         # limits: 60 -> 100 -> 150 -> 200 dB
         tail = np.array([60.0, 100.0, 150.0, 200.0])
         r = check_vector(chk, lab, m, geo, tail, Ls, spec, "1d")
@@ -496,6 +689,14 @@ def main(chk: Check):
                "is checked to be 1 +- 1e-12 so that a rescaled constellation disagrees with the curves")
     chk.assume("PER is compared with -expm1(L*log1p(-BER)) up to 4*L*2^-52 + 1e-15 absolute (the library's "
                "1-(1-BER)**L loses BER below 2^-53)")
+    chk.assume("call sequences: one object and one SNR array object rewritten in place between calls (+=, -=, "
+               "reversal, scaling, single element), every function in 5 orders, scalars in between, PSK "
+               "interleaved with setPhaseOffset; results must be bit-identical to a fresh object of the same "
+               "history on a fresh copy; arguments must be bit-identical after every call")
+    chk.assume("SNR arguments as read-only / strided / negative-stride / transposed / Fortran / swapped-axes / "
+               "int64..int8 arrays must give bit-identical results to the float64 C-contiguous array; float32 "
+               "input is compared up to 64*2^-23*kappa relative + 8*2^-23*(L for PER/SE) absolute (the library then computes in single precision: 1-(1-x)**L cancels); "
+               "Python lists are not legitimate SNR arguments (dB2Linear evaluates `list / 10.0`)")
     chk.assume("scalar SNR arguments are compared with the array result of the same SNR (quick tier: every "
                "4th grid point for M > 16)")
 
@@ -510,6 +711,8 @@ def main(chk: Check):
     chk.sample({"kind": "psk", "M": 8, "history": [["new", 0.0], ["set", 1.0]]})
     chk.sample({"kind": "qam", "M": 64, "history": []})
     chk.require_outcomes("structure", 18)
+    chk.require_outcomes("snr_presentation", 12)
+    chk.require_outcomes("sequence_rounds", 3)
     if chk.counters.get("nontrivial_rate_points", 0) < 1000:
         raise Broken("vacuous: only %d SNR points with a SER inside (1e-12, 0.999)"
                      % chk.counters.get("nontrivial_rate_points", 0))
